@@ -391,7 +391,19 @@ func genGame(o *Out, r *rand.Rand, thorough bool) {
 				}
 			}
 			if r.Intn(60) == 0 {
-				g.ops = append(g.ops, "m:"+[]string{"e2e5", "a1a1", "e1g1", "e7e8q", "h7h8n", "zzzz"}[r.Intn(6)])
+				// a fixed (mostly illegal) move; when it happens to be playable the simulation must follow it,
+				// otherwise the pop floors below are computed for a different line
+				junk := []string{"e2e5", "a1a1", "e1g1", "e7e8q", "h7h8n", "zzzz"}[r.Intn(6)]
+				g.ops = append(g.ops, "m:"+junk)
+				jb := g.boards[g.active]
+				for _, m := range jb.Position().PseudoLegalMoves(jb.Turn()) {
+					if moveUci(m) == junk {
+						if jb.PushMove(m) {
+							g.depth[g.active]++
+						}
+						break
+					}
+				}
 			}
 		}
 		line := fmt.Sprintf("game %d %s ; %s", seed, start, strings.Join(g.ops, " "))
